@@ -175,6 +175,7 @@ struct World
     bool poisoned = false;
     bool book_loaded_nonempty = false;
     std::string log_path;
+    bool log_option_sent = false;
     std::string last_consumed;
 
     // scheduler
